@@ -56,7 +56,7 @@ xstrlncpy(char *restrict dst, size_t dsz, const char *src, size_t ssz)
 {
 	if (UNLIKELY(!dsz)) {
 		return 0U;
-	} else if (ssz > dsz) {
+	} else if (ssz >= dsz) {
 		ssz = dsz - 1U;
 	}
 	memcpy(dst, src, ssz);
@@ -71,7 +71,7 @@ xstrlcpy(char *restrict dst, const char *src, size_t dsz)
 
 	if (UNLIKELY(!dsz)) {
 		return 0U;
-	} else if (ssz > dsz) {
+	} else if (ssz >= dsz) {
 		ssz = dsz - 1U;
 	}
 	memcpy(dst, src, ssz);
